@@ -7,35 +7,93 @@ import (
 	"fmt"
 	"go/ast"
 	"go/token"
+	"go/types"
 	"path/filepath"
 	"strings"
 
+	"golang.org/x/tools/go/packages"
 	"verifharness/fw"
 )
 
-func funcBody(files []*ast.File, recv, name string) *ast.BlockStmt {
+// The extraction is by TYPES AND VALUES, not by identifier names, so that a
+// behaviour-preserving rename of a local constant, a field, a helper or a receiver does
+// not trip it; what it relies on is stated at each step and anything unexpected is an
+// error (the runner then installs no table and the tie theorems fail).
+
+// methodBodies returns the bodies of all functions of the package, and the body of the
+// method with the given (exported, interface-mandated) name.
+func funcBodies(files []*ast.File) (all []*ast.BlockStmt, byName map[string][]*ast.BlockStmt) {
+	byName = map[string][]*ast.BlockStmt{}
 	for _, f := range files {
 		for _, d := range f.Decls {
-			fd, ok := d.(*ast.FuncDecl)
-			if !ok || fd.Name.Name != name || fd.Body == nil {
-				continue
-			}
-			r := ""
-			if fd.Recv != nil && len(fd.Recv.List) == 1 {
-				t := fd.Recv.List[0].Type
-				if s, ok := t.(*ast.StarExpr); ok {
-					t = s.X
-				}
-				if id, ok := t.(*ast.Ident); ok {
-					r = id.Name
-				}
-			}
-			if r == recv {
-				return fd.Body
+			if fd, ok := d.(*ast.FuncDecl); ok && fd.Body != nil {
+				all = append(all, fd.Body)
+				byName[fd.Name.Name] = append(byName[fd.Name.Name], fd.Body)
 			}
 		}
 	}
-	return nil
+	return
+}
+
+// intFieldConsts collects, per struct field of an integer type (identified by its
+// types.Var, whatever it is called), the constants stored into it inside body, in source
+// order: keyed elements of composite literals and plain assignments.
+func intFieldConsts(p *packages.Package, body *ast.BlockStmt) (order []*types.Var, vals map[*types.Var][]int64) {
+	vals = map[*types.Var][]int64{}
+	note := func(id *ast.Ident, rhs ast.Expr) {
+		fv, ok := p.TypesInfo.ObjectOf(id).(*types.Var)
+		if !ok || !fv.IsField() {
+			return
+		}
+		if b, ok := fv.Type().Underlying().(*types.Basic); !ok || b.Info()&types.IsInteger == 0 {
+			return
+		}
+		v, ok := fw.EvalInt(p, rhs)
+		if !ok {
+			return
+		}
+		if _, seen := vals[fv]; !seen {
+			order = append(order, fv)
+		}
+		vals[fv] = append(vals[fv], v)
+	}
+	ast.Inspect(body, func(n ast.Node) bool {
+		switch x := n.(type) {
+		case *ast.KeyValueExpr:
+			if id, ok := x.Key.(*ast.Ident); ok {
+				note(id, x.Value)
+			}
+		case *ast.AssignStmt:
+			if len(x.Lhs) == len(x.Rhs) {
+				for k, l := range x.Lhs {
+					if s, ok := l.(*ast.SelectorExpr); ok {
+						note(s.Sel, x.Rhs[k])
+					}
+				}
+			}
+		}
+		return true
+	})
+	return
+}
+
+func isCallTo(p *packages.Package, e ast.Expr, pkgPath, name string) bool {
+	c, ok := e.(*ast.CallExpr)
+	if !ok {
+		return false
+	}
+	var id *ast.Ident
+	switch f := c.Fun.(type) {
+	case *ast.SelectorExpr:
+		id = f.Sel
+	case *ast.Ident:
+		id = f
+	}
+	if id == nil {
+		return false
+	}
+	fn, ok := p.TypesInfo.ObjectOf(id).(*types.Func)
+	return ok && fn.Pkg() != nil && fn.Pkg().Path() == pkgPath && fn.Name() == name
 }
 
 func genC08Consts(repo string) (string, error) {
@@ -43,88 +101,150 @@ func genC08Consts(repo string) (string, error) {
 	if err != nil {
 		return "", err
 	}
-	// maxRounds: local constant of (*resolver).Resolve, passed to resolution.resolve
-	body := funcBody(p.Syntax, "resolver", "Resolve")
-	if body == nil {
-		return "", fmt.Errorf("(*resolver).Resolve not found")
-	}
-	// the bound is whatever CONSTANT is passed as the third argument of resolution.resolve,
-	// under any name and wherever it is declared (go/types evaluates the expression)
-	var maxRounds int64 = -1
-	ast.Inspect(body, func(n ast.Node) bool {
-		if x, ok := n.(*ast.CallExpr); ok {
-			if s, ok := x.Fun.(*ast.SelectorExpr); ok && s.Sel.Name == "resolve" && len(x.Args) == 3 {
-				if v, ok := fw.EvalInt(p, x.Args[2]); ok {
-					maxRounds = v
+	all, byName := funcBodies(p.Syntax)
+
+	// Round bound. Relies on: resolve.Resolver's method is called Resolve (the interface
+	// fixes that); inside it exactly one call to a function of THIS package passes a
+	// constant integer as its last argument. Name of the constant / callee: irrelevant.
+	var bounds []int64
+	for _, body := range byName["Resolve"] {
+		ast.Inspect(body, func(n ast.Node) bool {
+			x, ok := n.(*ast.CallExpr)
+			if !ok || len(x.Args) == 0 {
+				return true
+			}
+			var id *ast.Ident
+			switch f := x.Fun.(type) {
+			case *ast.SelectorExpr:
+				id = f.Sel
+			case *ast.Ident:
+				id = f
+			}
+			if id == nil {
+				return true
+			}
+			fn, ok := p.TypesInfo.ObjectOf(id).(*types.Func)
+			if !ok || fn.Pkg() != p.Types {
+				return true
+			}
+			last := x.Args[len(x.Args)-1]
+			if tv, ok := p.TypesInfo.Types[last]; ok && tv.Value != nil {
+				if b, ok := tv.Type.Underlying().(*types.Basic); ok && b.Info()&types.IsInteger != 0 {
+					if v, ok := fw.EvalInt(p, last); ok {
+						bounds = append(bounds, v)
+					}
 				}
+			}
+			return true
+		})
+	}
+	if len(bounds) != 1 {
+		return "", fmt.Errorf("Resolve: expected exactly one package-local call with a constant integer last argument (the round bound), found %v", bounds)
+	}
+	maxRounds := bounds[0]
+
+	// Preference key. Relies on: exactly one function of the package stores constants into
+	// integer struct fields with the pattern {one field: three constants (initial rating,
+	// rating for "==", rating for other specifiers, in source order); another field: one
+	// constant (the order of a package that is not user requested)}; the same function
+	// compares strings.ToLower(...) with a string constant (the delayed name).
+	type prefShape struct {
+		ratings []int64
+		order   int64
+		delayed string
+	}
+	var shapes []prefShape
+	for _, body := range all {
+		fields, vals := intFieldConsts(p, body)
+		var three, one [][]int64
+		for _, f := range fields {
+			switch len(vals[f]) {
+			case 3:
+				three = append(three, vals[f])
+			case 1:
+				one = append(one, vals[f])
 			}
 		}
-		return true
-	})
-	if maxRounds < 0 {
-		return "", fmt.Errorf("Resolve: no constant round bound passed to resolution.resolve")
-	}
-	// getPreference: initial rating, the ratings assigned, the default order, the delayed name
-	body = funcBody(p.Syntax, "provider", "getPreference")
-	if body == nil {
-		return "", fmt.Errorf("(*provider).getPreference not found")
-	}
-	var initRating, defaultOrder int64 = -1, -1
-	var assigned []int64
-	delayed := ""
-	ast.Inspect(body, func(n ast.Node) bool {
-		switch x := n.(type) {
-		case *ast.KeyValueExpr:
-			if id, ok := x.Key.(*ast.Ident); ok && id.Name == "restrictiveRating" {
-				if v, ok := fw.EvalInt(p, x.Value); ok {
-					initRating = v
-				}
-			}
-		case *ast.AssignStmt:
-			if len(x.Lhs) == 1 && len(x.Rhs) == 1 && x.Tok == token.ASSIGN {
-				if s, ok := x.Lhs[0].(*ast.SelectorExpr); ok {
-					switch s.Sel.Name {
-					case "restrictiveRating":
-						if v, ok := fw.EvalInt(p, x.Rhs[0]); ok {
-							assigned = append(assigned, v)
-						}
-					case "order":
-						if v, ok := fw.EvalInt(p, x.Rhs[0]); ok {
-							defaultOrder = v
+		if len(three) != 1 || len(one) != 1 {
+			continue
+		}
+		var names []string
+		ast.Inspect(body, func(n ast.Node) bool {
+			if be, ok := n.(*ast.BinaryExpr); ok && be.Op == token.EQL {
+				for _, pair := range [][2]ast.Expr{{be.X, be.Y}, {be.Y, be.X}} {
+					if isCallTo(p, pair[0], "strings", "ToLower") {
+						if s, ok := fw.EvalStr(p, pair[1]); ok {
+							names = append(names, s)
 						}
 					}
 				}
 			}
-		case *ast.BinaryExpr:
-			if x.Op == token.EQL {
-				if s, ok := fw.EvalStr(p, x.Y); ok {
-					delayed = s
-				}
-			}
+			return true
+		})
+		if len(names) != 1 {
+			continue
 		}
-		return true
-	})
-	if initRating < 0 || defaultOrder < 0 || len(assigned) != 2 || delayed == "" {
-		return "", fmt.Errorf("getPreference: unexpected shape (init %d order %d assigned %v delayed %q)", initRating, defaultOrder, assigned, delayed)
+		shapes = append(shapes, prefShape{three[0], one[0][0], names[0]})
 	}
-	// backtrack: the loop bound `len(r.states) >= N`
-	body = funcBody(p.Syntax, "resolution", "backtrack")
-	if body == nil {
-		return "", fmt.Errorf("(*resolution).backtrack not found")
+	if len(shapes) != 1 {
+		return "", fmt.Errorf("preference key: expected exactly one function with the rating/order/delayed-name pattern, found %d", len(shapes))
 	}
-	var minStates int64 = -1
-	for _, st := range body.List {
-		if fs, ok := st.(*ast.ForStmt); ok && fs.Init == nil && fs.Post == nil {
-			if be, ok := fs.Cond.(*ast.BinaryExpr); ok && be.Op == token.GEQ {
-				if v, ok := fw.EvalInt(p, be.Y); ok {
-					minStates = v
-				}
+	initRating, assigned, defaultOrder, delayed := shapes[0].ratings[0], shapes[0].ratings[1:], shapes[0].order, shapes[0].delayed
+
+	// Backtracking bound. Relies on: exactly one condition-only `for` loop of the package
+	// compares len(<slice of pointers>) with a constant; normalised to `len(x) >= N`.
+	var mins []int64
+	for _, body := range all {
+		ast.Inspect(body, func(n ast.Node) bool {
+			fs, ok := n.(*ast.ForStmt)
+			if !ok || fs.Init != nil || fs.Post != nil || fs.Cond == nil {
+				return true
 			}
-		}
+			be, ok := fs.Cond.(*ast.BinaryExpr)
+			if !ok {
+				return true
+			}
+			isLen := func(e ast.Expr) bool {
+				c, ok := e.(*ast.CallExpr)
+				if !ok || len(c.Args) != 1 {
+					return false
+				}
+				if id, ok := c.Fun.(*ast.Ident); !ok || id.Name != "len" || p.TypesInfo.ObjectOf(id) != types.Universe.Lookup("len") {
+					return false
+				}
+				sl, ok := p.TypesInfo.TypeOf(c.Args[0]).Underlying().(*types.Slice)
+				if !ok {
+					return false
+				}
+				_, ptr := sl.Elem().Underlying().(*types.Pointer)
+				return ptr
+			}
+			x, y, op := be.X, be.Y, be.Op
+			if !isLen(x) && isLen(y) { // N <= len(x)  ==>  len(x) >= N
+				x, y = y, x
+				op = map[token.Token]token.Token{token.LEQ: token.GEQ, token.LSS: token.GTR, token.GEQ: token.LEQ, token.GTR: token.LSS}[op]
+			}
+			if !isLen(x) {
+				return true
+			}
+			v, ok := fw.EvalInt(p, y)
+			if !ok {
+				return true
+			}
+			switch op {
+			case token.GEQ:
+				mins = append(mins, v)
+			case token.GTR:
+				mins = append(mins, v+1)
+			}
+			return true
+		})
 	}
-	if minStates < 0 {
-		return "", fmt.Errorf("backtrack: loop condition `len(r.states) >= N` not found")
+	if len(mins) != 1 {
+		return "", fmt.Errorf("backtrack: expected exactly one condition-only loop `len(stack) >= N`, found %v", mins)
 	}
+	minStates := mins[0]
+
 	var b strings.Builder
 	b.WriteString("-- C08Consts: constants of util/resolve/pypi/resolve.go used by the C08 model.\n")
 	b.WriteString("namespace DepsDev.Gen.C08Consts\n\n")
